@@ -371,6 +371,36 @@ func checkC23(c *Check) {
 		}
 	}
 
+	// (1b) every string sample as a map key before a node, a list and a scalar (what follows a key is laid
+	// out relative to the column the key ended in), and as a list element: whole through the byte API
+	// (reference), through the string API, into a plain writer, and in chunks
+	{
+		smp := newSampler(c.Seed + 23)
+		node, list, end := newEv("OnNode"), newEv("OnList"), newEv("OnEndContainer")
+		one := intEv("OnPositiveInt", "pint", "1")
+		for si, sv := range stringSamples {
+			if sv == "" {
+				continue
+			}
+			key := strEv("string", []byte(sv))
+			key.M = "OnArray"
+			for bi, body := range [][]AEv{
+				{newEv("OnMap"), key, node, one, one, end, end},
+				{newEv("OnMap"), key, list, one, end, end},
+				{newEv("OnMap"), key, one, end},
+				{list, key, node, one, end, end},
+			} {
+				for depth := 0; depth < 4; depth++ { // the column after the key's last line is compared with the indentation
+					nested := body
+					for d := 0; d < depth; d++ {
+						nested = append(append([]AEv{list}, nested...), end)
+					}
+					ref := wrapDoc(nested...)
+					compare("string before a container", ref, rechunk(ref, smp), fmt.Sprint("strkey", si, bi, depth), map[string]interface{}{"kind": "cte-string-layout", "string": sv, "depth": depth})
+				}
+			}
+		}
+	}
 	// (2) + (3) document level
 	maxLen, variants := 5, 3
 	if thorough {
